@@ -439,7 +439,7 @@ impl<R: Round, const B: Word> FBig<R, B> {
 
         let context = Context::<R>::new(24);
         if B != 2 {
-            let rounded: Rounded<Repr<2>> = context.convert_base(self.repr.clone());
+            let rounded = context.convert_to_binary_once(self.repr.clone());
             rounded.and_then(|v| v.into_f32_internal())
         } else {
             context
@@ -470,7 +470,7 @@ impl<R: Round, const B: Word> FBig<R, B> {
 
         let context = Context::<HalfEven>::new(53);
         if B != 2 {
-            let rounded: Rounded<Repr<2>> = context.convert_base(self.repr.clone());
+            let rounded = context.convert_to_binary_once(self.repr.clone());
             rounded.and_then(|v| v.into_f64_internal())
         } else {
             context
@@ -481,6 +481,30 @@ impl<R: Round, const B: Word> FBig<R, B> {
 }
 
 impl<R: Round> Context<R> {
+    // Convert the finite [Repr] from base B to base 2 with at most `precision` bits in the result and a single
+    // rounding: `convert_base` can return one digit more than the precision, which would have to be rounded again.
+    // The number is first converted with truncation and a few guard bits, a sticky bit below them records
+    // whether anything was cut off, then the only rounding to the context precision happens.
+    fn convert_to_binary_once<const B: Word>(&self, repr: Repr<B>) -> Rounded<Repr<2>> {
+        debug_assert!(self.precision > 0 && repr.is_finite());
+        let wide_precision = self.precision + 2;
+        let wide: Rounded<Repr<2>> = Context::<Zero>::new(wide_precision).convert_base(repr);
+        let sticky = matches!(wide, Inexact(_, _));
+        let Repr {
+            mut significand,
+            mut exponent,
+        } = wide.value();
+        if sticky {
+            // put the sticky bit below the position where the conversion was truncated
+            let pad = wide_precision.saturating_sub(significand.bit_len()) + 1;
+            let sign = significand.sign();
+            significand <<= pad;
+            significand += sign * IBig::ONE;
+            exponent -= pad as isize;
+        }
+        self.repr_round(Repr::new(significand, exponent))
+    }
+
     // Convert the [Repr] from base B to base NewB, with the precision under the target base from this context.
     #[allow(non_upper_case_globals)]
     fn convert_base<const B: Word, const NewB: Word>(&self, repr: Repr<B>) -> Rounded<Repr<NewB>> {
@@ -624,7 +648,7 @@ impl<const B: Word> Repr<B> {
 
         let context = Context::<HalfEven>::new(24);
         if B != 2 {
-            let rounded: Rounded<Repr<2>> = context.convert_base(self.clone());
+            let rounded = context.convert_to_binary_once(self.clone());
             rounded.and_then(|v| v.into_f32_internal())
         } else {
             context
@@ -690,7 +714,7 @@ impl<const B: Word> Repr<B> {
 
         let context = Context::<HalfEven>::new(53);
         if B != 2 {
-            let rounded: Rounded<Repr<2>> = context.convert_base(self.clone());
+            let rounded = context.convert_to_binary_once(self.clone());
             rounded.and_then(|v| v.into_f64_internal())
         } else {
             context
